@@ -65,9 +65,10 @@ def wfB2 (C : Cfg) : Bool :=
       | .discon d => (lineOf C (C.disconLine.getD d 0)).discons.all (fun d' => (secOf C k).switches.contains (.discon d'))
       | .breaker _ => true)) &&
   -- used for C06 (return to normal): a network lists each of its lines once, the networks attached to a distribution
-  -- network are microgrids, and every circuit breaker is the breaker of some network
+  -- network are microgrids, every circuit breaker is the breaker of some network and every section a section of some network
   (List.range C.nets.length).all (fun n => noDup (netOf C n).lines && (netOf C n).children.all (fun m => (netOf C m).mode.isSome)) &&
-  (List.range C.cbLine.length).all (fun c => (List.range C.nets.length).any (fun n => (netOf C n).cb == c))
+  (List.range C.cbLine.length).all (fun c => (List.range C.nets.length).any (fun n => (netOf C n).cb == c)) &&
+  (List.range C.secs.length).all (fun k => (List.range C.nets.length).any (fun n => (netOf C n).secs.contains k))
 
 /-- all state vectors have the length the configuration prescribes -/
 def sizeOK (C : Cfg) (s : St) : Bool :=
